@@ -3,6 +3,7 @@
   Run with `lake env lean --run Driver/Main.lean < ops.txt`.
 -/
 import Driver.Pure
+import Driver.Dna
 
 open Jesse
 
@@ -13,6 +14,7 @@ def step (s : DState) (line : String) : DState × String :=
   let toks := (line.trimAscii.toString.splitOn " ").filter (· ≠ "")
   match toks with
   | "call" :: fn :: args => (s, Driver.Pure.call fn args)
+  | "dna" :: args => (s, Driver.Dna.handle args)
   | [] => (s, "")
   | _ => (s, "bad-op")
 
